@@ -369,4 +369,10 @@ def rule_argument_order_shared(ctx):
     ctx.obls.extend(sub.obls)
 
 
-RULES = [rule_route, rule_pipe, rule_transition, rule_gamma_shared, rule_symbol_order_shared, rule_argument_order_shared]
+def rule_identity(ctx):
+    """items kept in sets are the same element exactly when all their fields agree: see collect.check_structural_identity"""
+    from .. import collect as _collect
+    _collect.check_structural_identity(ctx, "IDENT", ctx.facts)
+
+
+RULES = [rule_route, rule_pipe, rule_transition, rule_gamma_shared, rule_symbol_order_shared, rule_argument_order_shared, rule_identity]
